@@ -721,14 +721,18 @@ func c10IncompressibleDB(path string, k int, seed uint64) error {
 func TestVerif_C10_Incompressible(t *testing.T) {
 	vsnap.Quiet()
 	rec := vstat.New(t, "C10", "incompressible",
-		"rapid: a node booted from a SQLite file with 512-byte pages and one pseudo-random blob of 0.1..24 MB that fills its pages exactly; full snapshot; transfer with transport compression on (real compressor/decompressor, raft's Size limit on the connection), whole-stream writes; must install and restore to the source content. non-trivial = compressed wire stream is longer than the uncompressed Size; distinct by blob size+seed")
+		"rapid: a node booted from a SQLite file with 512-byte pages and one pseudo-random blob of 0.1..2.5 MB (thorough: ..24 MB) that fills its pages exactly; full snapshot; transfer with transport compression on (real compressor/decompressor, raft's Size limit on the connection), whole-stream writes; must install and restore to the source content. non-trivial = compressed wire stream is longer than the uncompressed Size; distinct by blob size+seed")
 	rapid.Check(t, func(rt *rapid.T) {
 		root, err := os.MkdirTemp("", "c10i")
 		if err != nil {
 			rt.Skip()
 		}
 		defer os.RemoveAll(root)
-		k := rapid.SampledFrom([]int{200, 2000, 12000, 30000, 36000, 44000, 48000}).Draw(rt, "k") + rapid.IntRange(0, 50).Draw(rt, "dk")
+		ks := []int{200, 2000, 5000}
+		if vstat.Thorough() {
+			ks = []int{200, 2000, 12000, 30000, 36000, 44000, 48000}
+		}
+		k := rapid.SampledFrom(ks).Draw(rt, "k") + rapid.IntRange(0, 50).Draw(rt, "dk")
 		seed := rapid.Uint64().Draw(rt, "seed")
 		file := filepath.Join(root, "boot.db")
 		if err := c10IncompressibleDB(file, k, seed); err != nil {
